@@ -35,6 +35,8 @@ func main() {
 		sharedMain(os.Args[2:])
 	case "schema":
 		schemaMain(os.Args[2:])
+	case "live":
+		liveMain(os.Args[2:])
 	default:
 		fmt.Fprintf(os.Stderr, "unknown family %q\n", os.Args[1])
 		os.Exit(2)
